@@ -785,19 +785,17 @@ class Runner:
         return 'zero-size-array-element-loop' if self.zero_size_elem(text) else base
 
     def signature_field(self, raw):
-        """the value parseMessage would use as body signature (decoded by the real header decoder, uncounted)."""
-        saved, self.counter.budget = self.counter.budget, None
-        try:
+        """the value parseMessage would use as body signature (real header decoder, itself under budget and alarm);
+        '' when the header decode does not finish or fails."""
+        def fn():
             hval = self.marshal.unmarshal(self.message._headerFormat, raw, 0, raw[:1] == b'l', [])[1]
-            sig = None
+            sig = ''
             for code, v in hval[6]:
                 if self.message._hcode.get(code) == 'signature':
                     sig = v
             return sig
-        except Exception:
-            return None
-        finally:
-            self.counter.budget = saved
+        r = guarded(self.counter, step_bound({'op': 'p', 'data': raw}) + 1, fn)
+        return r['value'] if r['status'] == 'ok' else ''
 
     @staticmethod
     def zero_size_elem(sig):
